@@ -509,9 +509,12 @@ func histCheck(prop string, keep []string, quickOps, thoroughOps int, configure 
 
 func init() {
 	Registry["C01"] = func(c *Ctx) {
-		c.R.Rule = "explicit-state breadth-first search over build histories: a state is (source toggles, workspace outputs, abstract cache content); operations = 13 source edits (append byte, move a byte from the end of one input to the start of the next, add/rename file under a glob, command change with/without output change, declared outputs, fingerprint value, fingerprint '=' shift, alias edge <-> direct edge, inputs of two other targets, platform) and `grog build //...` / `grog build //b:top` by the REAL binary on a cloned workspace+cache (every clone lives at a different absolute path); all histories of <= n operations with state de-duplication. After every build: exit 0, every declared output of every selected target equals a from-scratch build of the current sources (memoised per source state), and no target is served from cache whose state (per a reference dictionary model) has no successful result. Non-trivial = a build with at least one cache hit and one execution."
+		c.R.Rule = "explicit-state breadth-first search over build histories: a state is (source toggles, workspace outputs, abstract cache content); operations = 13 source edits (append byte, move a byte from the end of one input to the start of the next, add/rename file under a glob, command change with/without output change, declared outputs, fingerprint value, fingerprint '=' shift, alias edge <-> direct edge, inputs of two other targets, platform), two workspace pre-state operations (a stale file inside a directory output, a tampered file output) and `grog build //...` / `grog build //b:top` by the REAL binary on a cloned workspace+cache (every clone lives at a different absolute path); all histories of <= n operations with state de-duplication. After every build: exit 0, every declared output of every selected target equals a from-scratch build of the current sources (memoised per source state), and no target is served from cache whose state (per a reference dictionary model) has no successful result. Non-trivial = a build with at least one cache hit and one execution."
 		c.R.Assume("commands of the model workspace are deterministic functions of their declared inputs and dependency outputs", "the reference cache model keys on (label, command, declared outputs, fingerprint, platform, input path+content, observed dependency output contents)", "histories longer than the bound and workspaces other than the 6-target model workspace are not covered")
-		histCheck("C01", []string{"C01:", "C04:build-hangs"}, 3, 5, func(e *histEngine, thorough bool) {})(c)
+		histCheck("C01", []string{"C01:", "C04:build-hangs"}, 3, 5, func(e *histEngine, thorough bool) {
+			// restores happen over whatever the workspace holds: a polluted directory output and a tampered file output
+			e.preOps = []string{"add-stale-file-to-dist", "modify-lib-output"}
+		})(c)
 	}
 	Registry["C02"] = func(c *Ctx) {
 		c.R.Rule = "the C01 history search extended with workspace pre-state operations on output paths between builds (delete output, delete its parent directory, modify, truncate, delete a directory output, replace a file output by a directory, add a stale file to a directory output, clear an exec bit); after every build the set of executed commands (trace written by the commands themselves) must EQUAL the set predicted by the reference cache model: nothing on a no-op rebuild, only targets whose state has no cached result otherwise; dependants of a target that reproduces identical outputs are restored (early cut-off); every clone of the workspace lives at a different absolute path. Thorough additionally runs sha256 and load_outputs=minimal universes."
